@@ -52,6 +52,17 @@ def make_dist(rng, k):
         cov = (Q * ev) @ Q.T
         cov = (cov + cov.T) / 2
         mean = np.round(rng.uniform(-10, 10, p), 3)
+        if k % 5 == 0:
+            # the same Gaussian expressed in other units (conditioning is scale-equivariant): tiny and huge scales,
+            # where any absolute tolerance hidden in the implementation becomes an O(1) error
+            sc = float(10.0 ** rng.integers(-12, 9))
+            mean, cov = mean * sc, cov * (sc * sc)
+        elif k % 5 == 1 and p >= 2:
+            # very weak dependence between the first variable and the rest
+            eps_ = float(10.0 ** rng.uniform(-11, -6))
+            cov = cov.copy()
+            cov[0, 1:] *= eps_
+            cov[1:, 0] *= eps_
     return mean, cov
 
 
@@ -86,8 +97,10 @@ def gen(tier, seed, shard, nshards):
                 nx = int(rng.integers(0, p - ny + 1))
                 qs.append((perm[:ny], perm[ny:ny + nx]))
         queries = []
+        sd = np.sqrt(np.abs(np.diag(np.asarray(cov, dtype=float))))
         for (Y, Xs) in qs:
-            x = [float(v) for v in np.round(rng.uniform(-10, 10, len(Xs)), 3)]
+            far = 1e6 if rng.random() < 0.05 else 1.0        # now and then condition on a value very far out
+            x = [float(np.asarray(mean, dtype=float)[j] + far * sd[j] * v) for j, v in zip(Xs, rng.normal(size=len(Xs)) * 2)]
             queries.append({"Y": Y, "X": Xs, "x": x, "form": int(rng.integers(0, 5))})
         yield "dist", {"mean": mean, "cov": cov, "queries": queries, "k": k}
 
